@@ -71,7 +71,18 @@ pub trait NodeClient: Sized + Clone {
     // (A-node-height: a height below 2^64 - 1; the wallet computes height + 1)
     fn get_chain_tip(&self) -> (r: Result<(u64, String), Error>)
         ensures r matches Err(e) ==> store_err(e), r matches Ok(t) ==> t.0 < u64::MAX;
+    // A-node: the node answers exactly for those of the commitments asked that are in its unspent set, with their height
+    fn get_outputs_from_node(&self, wallet_outputs: Vec<Commitment>) -> (r: Result<HashMap<Commitment, (String, u64, u64)>, Error>)
+        ensures r matches Ok(m) ==> forall|c: Commitment| (#[trigger] m@.dom().contains(c) <==> (wallet_outputs@.contains(c) && utxo_height(c) is Some))
+                && (m@.dom().contains(c) ==> m@[c].1 == utxo_height(c)->Some_0);
 }
+// the node's unspent output set at the time of the call: the block height of the unspent output with this commitment
+pub uninterp spec fn utxo_height(c: Commitment) -> Option<u64>;
+// L3: `map.keys().copied().collect()`
+#[verifier::external_body]
+pub fn vf_map_keys<K: Copy, V>(m: &HashMap<K, V>) -> (r: Vec<K>)
+    ensures forall|k: K| r@.contains(k) <==> #[trigger] m@.dom().contains(k)
+{ unimplemented!() }
 pub trait ProofBuild { }
 
 // grin_core::core::amount_to_hr_string — display only
